@@ -73,7 +73,15 @@ func ReadSegStats(segkey string, qid uint64) (map[string]*structs.SegStats, erro
 	version := fdata[rIdx]
 	rIdx++
 
-	var retErr error
+	if version != sutils.VERSION_SEGSTATS[0] && version != sutils.VERSION_SEGSTATS_LEGACY[0] {
+		return retVal, fmt.Errorf("qid=%d, ReadSegStats: unknown version: %v in sst file: %v", qid, version, fName)
+	}
+
+	// FlushSegStats writes the file only when it has the stats of at least one column
+	if len(fdata) == 1 {
+		return retVal, fmt.Errorf("qid=%d, ReadSegStats: sst file %v is cut short: no column stats", qid, fName)
+	}
+
 	for rIdx < uint32(len(fdata)) {
 
 		// the lengths come from the file: they must fit into what is left of it
@@ -102,9 +110,6 @@ func ReadSegStats(segkey string, qid uint64) (map[string]*structs.SegStats, erro
 		case sutils.VERSION_SEGSTATS_LEGACY[0]:
 			sstlen = uint32(utils.BytesToUint16LittleEndian(fdata[rIdx : rIdx+2]))
 			rIdx += 2
-		default:
-			retErr = fmt.Errorf("qid=%d, ReadSegStats: unknown version: %v", qid, version)
-			continue
 		}
 
 		if uint64(sstlen) > uint64(len(fdata))-uint64(rIdx) {
@@ -121,7 +126,7 @@ func ReadSegStats(segkey string, qid uint64) (map[string]*structs.SegStats, erro
 		rIdx += uint32(sstlen)
 		retVal[cname] = sst
 	}
-	return retVal, retErr
+	return retVal, nil
 }
 
 func readSingleSst(fdata []byte, qid uint64) (*structs.SegStats, error) {
